@@ -362,6 +362,9 @@ func runC09(c *Ctx) {
 						if !isSt || st.Addr != ssa.Value(al) {
 							continue
 						}
+						if bt, isB := st.Val.Type().Underlying().(*types.Basic); isB && bt.Kind() != types.UnsafePointer {
+							continue // a number, string or bool is copied, not shared (the parent's step bound)
+						}
 						switch v := st.Val.(type) {
 						case *ssa.MakeMap, *ssa.MakeSlice, *ssa.MakeChan, *ssa.Alloc, *ssa.Const, *ssa.MakeClosure:
 						case *ssa.Call:
